@@ -82,7 +82,7 @@ fn networks() -> Vec<(&'static str, GenesisValues)> {
 const TOP: u64 = 1 << 40;
 
 /// Slots sampled densely around every boundary the conversions know about.
-fn sample_slots(g: &GenesisValues, rng: &mut Rng, n_random: u64) -> Vec<u64> {
+fn sample_slots(g: &GenesisValues, rng: &mut Rng, n_random: u64, window: u64) -> Vec<u64> {
     let bes = (g.byron_epoch_length / g.byron_slot_length.max(1)).max(1) as u64;
     let ses = (g.shelley_epoch_length / g.shelley_slot_length.max(1)).max(1) as u64;
     let sks = g.shelley_known_slot;
@@ -106,7 +106,7 @@ fn sample_slots(g: &GenesisValues, rng: &mut Rng, n_random: u64) -> Vec<u64> {
     around(&mut v, g.byron_epoch_length as u64, 2);
     around(&mut v, 5 * g.byron_epoch_length as u64, 2);
     // the era boundary
-    around(&mut v, sks, 60);
+    around(&mut v, sks, window);
     // Shelley epoch boundaries
     let kmax = (TOP - sks) / ses;
     let mut ks = vec![1, 2, 3, 10, 100, 1000, kmax / 2, kmax - 1, kmax];
@@ -139,6 +139,7 @@ fn sample_slots(g: &GenesisValues, rng: &mut Rng, n_random: u64) -> Vec<u64> {
 pub fn trace(args: &Args) {
     let mut rng = Rng::new(args.seed());
     let n_random = args.num("random", 100);
+    let window = args.num("window", 60);
     let mut out = Ndjson::create(args.get("out"));
     for (name, g) in networks() {
         let e0 = catch(|| g.shelley_start_epoch());
@@ -154,7 +155,7 @@ pub fn trace(args: &Args) {
             "ssl": g.shelley_slot_length, "sel": g.shelley_epoch_length,
             "bks": big(g.byron_known_slot), "bkt": big(g.byron_known_time),
             "sks": big(g.shelley_known_slot), "skt": big(g.shelley_known_time)}}));
-        for s in sample_slots(&g, &mut rng, n_random) {
+        for s in sample_slots(&g, &mut rng, n_random, window) {
             match catch(|| g.absolute_slot_to_relative(s)) {
                 Ok((e, sub)) => {
                     out.ev(json!({"ev": "rel", "slot": big(s), "epoch": big(e), "sub": big(sub)}));
